@@ -24,6 +24,29 @@ Proof.
   intros Hne. rewrite (app_removelast_last d Hne) at 1. rewrite rev_app_distr. reflexivity.
 Qed.
 
+Lemma firstnN_firstn {X} (l : list X) : forall n, firstnN n l = firstn (N.to_nat n) l.
+Proof.
+  induction l as [|x r IH]; intros n; simpl.
+  - rewrite firstn_nil. reflexivity.
+  - destruct (0 <? n) eqn:Hn.
+    + apply N.ltb_lt in Hn. replace (N.to_nat n) with (Datatypes.S (N.to_nat (N.pred n))) by lia.
+      simpl. rewrite IH. reflexivity.
+    + apply N.ltb_ge in Hn. replace (N.to_nat n) with O by lia. reflexivity.
+Qed.
+
+Lemma nthN_nth_error {X} (l : list X) : forall n, nthN l n = nth_error l (N.to_nat n).
+Proof.
+  induction l as [|x r IH]; intros n; simpl.
+  - destruct (N.to_nat n); reflexivity.
+  - destruct (n =? 0) eqn:Hn.
+    + apply N.eqb_eq in Hn. subst n. reflexivity.
+    + apply N.eqb_neq in Hn. replace (N.to_nat n) with (Datatypes.S (N.to_nat (N.pred n))) by lia.
+      simpl. apply IH.
+Qed.
+
+Lemma lengthN_length {X} (l : list X) : lengthN l = N.of_nat (List.length l).
+Proof. induction l as [|x r IH]; simpl lengthN; [reflexivity|]. rewrite IH. simpl List.length. lia. Qed.
+
 Section StrategiesProofs.
   Variable A : Type.
   Variable parse : bytes -> pres A.
@@ -74,7 +97,8 @@ Section StrategiesProofs.
   Theorem leftmost_spec fwd values limit bl :
     leftmost_non_private A parse fwd values limit bl = spec_leftmost A bl (entries fwd values) limit.
   Proof.
-    unfold leftmost_non_private, spec_leftmost. destruct values as [|v rest]; [destruct (N.to_nat limit); reflexivity|].
+    unfold leftmost_non_private, spec_leftmost. rewrite firstnN_firstn.
+    destruct values as [|v rest]; [destruct (N.to_nat limit); reflexivity|].
     rewrite (take_is _ _ limit (ip_addr_seq_is A parse parse_no_panic fwd (v :: rest)) (loop_state A)).
     rewrite firstn_map. unfold finish.
     rewrite scan_fold.
@@ -115,8 +139,17 @@ Section StrategiesProofs.
     0 < n -> rightmost_trusted_count A parse fwd values n = spec_trusted_count A (entries fwd values) n.
   Proof.
     intros Hn. rewrite trusted_count_nth by exact Hn. unfold spec_trusted_count.
-    assert (Hz : (n =? 0) = false) by (apply N.eqb_neq; lia). rewrite Hz. reflexivity.
+    assert (Hz : (n =? 0) = false) by (apply N.eqb_neq; lia). rewrite Hz. rewrite nthN_nth_error.
+    replace (N.to_nat (N.pred n)) with (N.to_nat n - 1)%nat by lia. reflexivity.
   Qed.
+
+  Corollary leftmost_first_limit fwd values limit bl :
+    leftmost_non_private A parse fwd values limit bl =
+    match find (untrusted_addr A bl) (firstn (N.to_nat limit) (entries fwd values)) with
+    | Some (Some a) => Ok a
+    | _ => Err [ELeftmost]
+    end.
+  Proof. rewrite leftmost_spec. unfold spec_leftmost. rewrite firstnN_firstn. reflexivity. Qed.
 
   (* rightmost-trusted-range: the first entry from the right that is not a trusted
      address; an error when it is not an address at all *)
@@ -267,8 +300,8 @@ Section StrategiesProofs.
   Proof.
     unfold designated_within_count, spec_trusted_count. intros H.
     apply andb_true_iff in H. destruct H as [Hz Hle].
-    apply negb_true_iff in Hz. rewrite Hz. apply Nat.leb_le in Hle.
-    apply N.eqb_neq in Hz.
+    apply negb_true_iff in Hz. rewrite Hz. apply N.leb_le in Hle. rewrite lengthN_length in Hle.
+    apply N.eqb_neq in Hz. rewrite !nthN_nth_error.
     rewrite rev_app_distr, nth_error_app1 by (rewrite rev_length; lia). reflexivity.
   Qed.
 
@@ -307,7 +340,7 @@ Section StrategiesProofs.
   Proof.
     intros H Hl. subst lines. unfold designated_within_count in H. simpl in H.
     apply andb_true_iff in H. destruct H as [Hz Hle]. apply negb_true_iff, N.eqb_neq in Hz.
-    apply Nat.leb_le in Hle. lia.
+    apply N.leb_le in Hle. lia.
   Qed.
 
   (* ---------------- anti-spoofing, on the header lines ---------------- *)
